@@ -152,6 +152,15 @@ func c14Constructors(c *fw.Case) {
 		make                   func() (patch.Patch, error)
 	}
 	replaceDoc := map[string]interface{}{"publicKeys": keys, "services": svcs}
+	// both members of a replace document are optional
+	switch r.Intn(5) {
+	case 0:
+		replaceDoc = map[string]interface{}{"publicKeys": keys}
+	case 1:
+		replaceDoc = map[string]interface{}{"services": svcs}
+	case 2:
+		replaceDoc = map[string]interface{}{}
+	}
 	ctors := []ctor{
 		{"NewAddPublicKeysPatch", "add-public-keys", "publicKeys", keys, func() (patch.Patch, error) { return patch.NewAddPublicKeysPatch(js(keys)) }},
 		{"NewRemovePublicKeysPatch", "remove-public-keys", "ids", ids, func() (patch.Patch, error) { return patch.NewRemovePublicKeysPatch(js(ids)) }},
